@@ -9,9 +9,16 @@
    Backend weights go through the C16 model (HI.Model.Weights.rebalance, base 128).
    Definitions only; proofs are in Proofs/Gateway.v.
 
-   Not modelled (kept out of the generated inputs): listener TLS (certificates, passthrough),
-   ExternalName services, endpoint slices, v1alpha2/v1beta1 Gateways (same code path),
-   syntactic validation of label keys and values.
+   Two drivers are given.  `attach_impl` is the converter on object sets whose listeners do not
+   use TLS passthrough (one API version); the C10 theorems are proved about it.  `attach_impl_x`
+   / `attach_versions` add what passthrough does (backend ModeTCP, ssl-passthrough hosts, the
+   root path moved to HTTPPassthroughBackend, duplicate links) and the successive syncs of the
+   enabled API versions (v1, v1beta1, v1alpha2) over one shared haproxy model; the correspondence
+   runs that one, and Proofs/Gateway.v shows that it coincides with `attach_impl` when no
+   listener is in passthrough mode.
+   Not modelled (kept out of the generated inputs): the certificate chosen by certificateRefs
+   (it does not gate attachment), ExternalName services, endpoint slices, syntactic validation of
+   label keys and values.
    The Kind of a route is what the client reports in its TypeMeta (rt_kind): the informer cache
    of controller-runtime reports "HTTPRoute"/"TCPRoute", the bare fake client reports "". *)
 From Coq Require Import ZArith NArith List Bool String Ascii DecimalString.
@@ -31,7 +38,9 @@ Record selector := { sel_labels : list (string * string); sel_exprs : list label
 Record route_ns := { rn_from : ostr; rn_selector : option selector }.
 (* kinds: (group, kind) *)
 Record allowed := { al_kinds : list (ostr * string); al_namespaces : option route_ns }.
-Record listener := { l_name : string; l_hostname : ostr; l_port : Z; l_allowed : option allowed }.
+(* l_tls: None = no tls block, Some m = a tls block whose mode pointer is m *)
+Record listener := { l_name : string; l_hostname : ostr; l_port : Z; l_protocol : string;
+                     l_tls : option ostr; l_allowed : option allowed }.
 Record gateway := { g_ns : string; g_name : string; g_class : string; g_listeners : list listener }.
 
 Record parentref := { p_group : ostr; p_kind : ostr; p_ns : ostr; p_name : string; p_section : ostr }.
@@ -333,8 +342,20 @@ Definition sync_rule (cl : cluster) (r : route) (l : listener) (st : gstate) (ir
     let '(st1, ob) := create_backend cl r ("_rule" ++ nat_str i) (r_backends rule) st in
     match ob with Some bid => fold_left (add_path bid) (rule_links l r rule) st1 | None => st1 end.
 
+(* listenerSupportsTCPRoute: a TCPRoute is not attached through a listener of one of the core
+   protocols that cannot carry it; the protocol is not looked at for an HTTPRoute *)
+Definition protocol_ok (r : route) (l : listener) : bool :=
+  if rt_tcp r
+  then negb (String.eqb (l_protocol l) "HTTP" || String.eqb (l_protocol l) "HTTPS"
+             || String.eqb (l_protocol l) "TLS" || String.eqb (l_protocol l) "UDP")
+  else true.
+
+(* sectionName, protocol, allowedRoutes: the listener takes the route *)
+Definition listener_ok (cl : cluster) (r : route) (g : gateway) (sec : ostr) (l : listener) : bool :=
+  section_ok sec l && protocol_ok r l && listener_allowed cl g r l.
+
 Definition sync_listener (cl : cluster) (r : route) (g : gateway) (sec : ostr) (st : gstate) (l : listener) : gstate :=
-  if section_ok sec l && listener_allowed cl g r l
+  if listener_ok cl r g sec l
   then fold_left (sync_rule cl r l) (indexed 0 (rt_rules r)) st
   else st.
 
@@ -360,6 +381,128 @@ Definition attach_impl (cl : cluster) : gstate :=
   let http := sort_routes (filter (fun r => negb (rt_tcp r)) (c_routes cl)) in
   let tcp := sort_routes (filter rt_tcp (c_routes cl)) in
   fold_left (sync_route cl) tcp (fold_left (sync_route cl) http empty_state).
+
+(* ================================================================== TLS passthrough and API versions
+   The same loops with what a listener in `tls.mode: Passthrough` adds, over a state that is
+   kept between the syncs of the enabled API versions. *)
+
+(* x_core: as above, but a link may now appear more than once and be removed again;
+   x_modetcp: backends with ModeTCP; x_pass: hosts with ssl-passthrough;
+   x_hpb: host -> HTTPPassthroughBackend *)
+Record xstate := { x_core : gstate; x_modetcp : list string; x_pass : list string;
+                   x_hpb : list (string * string) }.
+Definition empty_xstate : xstate :=
+  {| x_core := empty_state; x_modetcp := []; x_pass := []; x_hpb := [] |}.
+
+Definition with_core (x : xstate) (c : gstate) : xstate :=
+  {| x_core := c; x_modetcp := x_modetcp x; x_pass := x_pass x; x_hpb := x_hpb x |}.
+Definition with_paths (c : gstate) (ps : list (string * string)) : gstate :=
+  {| st_paths := ps; st_backs := st_backs c; st_tcp := st_tcp c |}.
+
+Definition is_passthrough (l : listener) : bool :=
+  match l_tls l with Some (Some m) => String.eqb m "Passthrough" | _ => false end.
+
+(* the links that Host.FindPath("/") returns on host h: path "/", no header match, any type *)
+Definition root_keys (h : string) : list string :=
+  map (fun t => h ++ nl ++ "/" ++ nl ++ t) ["exact"; "prefix"; "regex"; "begin"].
+Definition is_root_key (h k : string) : bool := str_mem k (root_keys h).
+
+(* handlePassthrough after a link of backend bid (ModeTCP = b) was added to host h *)
+Definition handle_passthrough (path h bid : string) (b : bool) (x : xstate) : xstate :=
+  if negb (String.eqb path "/") || (negb b && negb (str_mem h (x_pass x))) then x
+  else
+    (* the root paths of h whose backend is not ModeTCP, in order *)
+    let moved := filter (fun e : string * string =>
+                           is_root_key h (fst e) && negb (str_mem (snd e) (x_modetcp x)))
+                        (st_paths (x_core x)) in
+    match moved with
+    | [] => x
+    | first :: _ =>
+        {| x_core := with_paths (x_core x)
+                       (filter (fun e : string * string =>
+                                  negb (is_root_key h (fst e) && negb (str_mem (snd e) (x_modetcp x))))
+                               (st_paths (x_core x)));
+           x_modetcp := x_modetcp x; x_pass := x_pass x;
+           x_hpb := if has_key h (x_hpb x) then x_hpb x
+                    else x_hpb x ++ [(h, if b then snd first else bid)] |}
+    end.
+
+(* createHTTPHosts, one (match, hostname): returns the host when the link was added *)
+Definition add_path_x (bid : string) (b : bool) (acc : xstate * list string) (mh : hmatch * string)
+    : xstate * list string :=
+  let '(x, hosts) := acc in
+  let '(m, h) := mh in
+  let hn := host_name h in
+  let k := link_hash h m in
+  let hp := str_mem hn (x_pass x) in
+  if has_key k (st_paths (x_core x)) && ((b && hp) || (negb b && negb hp)) then (x, hosts)
+  else
+    let x1 := with_core x (with_paths (x_core x) (st_paths (x_core x) ++ [(k, bid)])) in
+    (handle_passthrough (match_path m) hn bid b x1, (hosts ++ [hn])%list).
+
+Definition set_add (s : string) (l : list string) : list string := if str_mem s l then l else (l ++ [s])%list.
+
+(* one rule on one admitted listener *)
+Definition sync_rule_x (cl : cluster) (r : route) (l : listener) (x : xstate) (ir : nat * rrule) : xstate :=
+  let '(i, rule) := ir in
+  if rt_tcp r then
+    let '(c1, ob) := create_backend cl r ("_tcprule" ++ nat_str i) (r_backends rule) (x_core x) in
+    match ob with
+    | Some bid =>
+        (* createTCPService sets ModeTCP before looking for a previous declaration *)
+        {| x_core := add_tcp bid (l_port l) c1; x_modetcp := set_add bid (x_modetcp x);
+           x_pass := x_pass x; x_hpb := x_hpb x |}
+    | None => with_core x c1
+    end
+  else
+    let '(c1, ob) := create_backend cl r ("_rule" ++ nat_str i) (r_backends rule) (x_core x) in
+    match ob with
+    | Some bid =>
+        let pass := is_passthrough l in
+        let x1 := {| x_core := c1; x_modetcp := if pass then set_add bid (x_modetcp x) else x_modetcp x;
+                     x_pass := x_pass x; x_hpb := x_hpb x |} in
+        let b := str_mem bid (x_modetcp x1) in
+        (* a ModeTCP backend ignores the matches of the rule *)
+        let ms := if b then [empty_match] else matches_or_default (r_matches rule) in
+        let '(x2, hosts) :=
+          fold_left (add_path_x bid b)
+                    (flat_map (fun m => map (fun h => (m, h)) (filter_hostnames l r)) ms) (x1, []) in
+        (* applyCertRef: passthrough marks the hosts that received a link *)
+        if pass then {| x_core := x_core x2; x_modetcp := x_modetcp x2;
+                        x_pass := fold_left (fun acc h => set_add h acc) hosts (x_pass x2);
+                        x_hpb := x_hpb x2 |}
+        else x2
+    | None => with_core x c1
+    end.
+
+Definition sync_listener_x (cl : cluster) (r : route) (g : gateway) (sec : ostr) (x : xstate) (l : listener) : xstate :=
+  if listener_ok cl r g sec l
+  then fold_left (sync_rule_x cl r l) (indexed 0 (rt_rules r)) x
+  else x.
+
+Definition sync_parent_x (cl : cluster) (r : route) (x : xstate) (p : parentref) : xstate :=
+  if parent_is_gateway p then
+    match get_gateway cl (parent_ns r p) (p_name p) with
+    | Some g => fold_left (sync_listener_x cl r g (p_section p)) (g_listeners g) x
+    | None => x
+    end
+  else x.
+
+Definition sync_route_x (cl : cluster) (x : xstate) (r : route) : xstate :=
+  fold_left (sync_parent_x cl r) (rt_parents r) x.
+
+(* converter.Sync(full, gwtyp) on the objects of one API version, from the current state *)
+Definition sync_cluster_x (cl : cluster) (x : xstate) : xstate :=
+  let http := sort_routes (filter (fun r => negb (rt_tcp r)) (c_routes cl)) in
+  let tcp := sort_routes (filter rt_tcp (c_routes cl)) in
+  fold_left (sync_route_x cl) tcp (fold_left (sync_route_x cl) http x).
+
+Definition attach_impl_x (cl : cluster) : xstate := sync_cluster_x cl empty_xstate.
+
+(* converters.Sync: one sync per enabled API version (v1, v1beta1, v1alpha2 in that order), each on
+   the GatewayClasses, Gateways and HTTPRoutes of that version and on all the TCPRoutes *)
+Definition attach_versions (cls : list cluster) : xstate :=
+  fold_left (fun x cl => sync_cluster_x cl x) cls empty_xstate.
 
 (* ================================================================== specification
    The Gateway API attachment rules named by the property, written without the converter's
@@ -413,8 +556,14 @@ Definition namespaces_admit (cl : cluster) (g : gateway) (r : route) (rn : route
      (forall e, In e (sel_exprs sel) -> expr_holds ls e)).
 
 (* the listener admits the route *)
+(* listener protocol against route kind, as far as the project implements it: a TCPRoute needs a
+   listener that is not HTTP, HTTPS, TLS or UDP (nothing is asked of an HTTPRoute) *)
+Definition protocol_admits (r : route) (l : listener) : Prop :=
+  rt_tcp r = true ->
+  l_protocol l <> "HTTP" /\ l_protocol l <> "HTTPS" /\ l_protocol l <> "TLS" /\ l_protocol l <> "UDP".
+
 Definition listener_admits (cl : cluster) (r : route) (p : parentref) (g : gateway) (l : listener) : Prop :=
-  section_admits p l /\
+  section_admits p l /\ protocol_admits r l /\
   exists a rn, l_allowed l = Some a /\ al_namespaces a = Some rn /\
     kinds_admit (al_kinds a) (true_kind r) /\ namespaces_admit cl g r rn.
 
@@ -495,3 +644,64 @@ Definition tcp_combinations (cl : cluster) : list tcp_attachment :=
         (c_gateways cl))
       (rt_parents r))
     (tcp_routes cl).
+
+(* ================================================================== the Gateway API text alone
+   The project documents two departures from the Gateway API: a listener hostname other than
+   empty or "*" overrides the route's hostnames without intersecting them, and the listener
+   protocol is not looked at for an HTTPRoute.  The relations below are the API's own. *)
+
+Definition is_wild (h : string) : bool := String.prefix "*." h.
+(* "*.example.com" -> ".example.com" *)
+Definition wild_suffix (h : string) : string := String.substring 1 (String.length h - 1) h.
+Definition ends_with (suf s : string) : bool :=
+  Nat.leb (String.length suf) (String.length s)
+  && String.eqb (String.substring (String.length s - String.length suf) (String.length suf) s) suf.
+(* a wildcard stands for at least one more label *)
+Definition strictly_ends_with (suf s : string) : bool :=
+  Nat.ltb (String.length suf) (String.length s) && ends_with suf s.
+
+(* intersection of a listener hostname L with a route hostname R: the more specific of the two
+   when one covers the other *)
+Definition spec_match (L R : string) : option string :=
+  if String.eqb R "" || String.eqb R "*" then Some L
+  else match is_wild L, is_wild R with
+       | false, false => if String.eqb L R then Some R else None
+       | true, false => if strictly_ends_with (wild_suffix L) R then Some R else None
+       | false, true => if strictly_ends_with (wild_suffix R) L then Some L else None
+       | true, true => if ends_with (wild_suffix L) (wild_suffix R) then Some R
+                       else if ends_with (wild_suffix R) (wild_suffix L) then Some L else None
+       end.
+
+(* the hostnames a route gets on a listener *)
+Definition spec_hostnames (l : listener) (r : route) : list string :=
+  let of_route := match rt_hostnames r with [] => ["*"] | hs => hs end in
+  match l_hostname l with
+  | None => of_route
+  | Some h => if String.eqb h "" || String.eqb h "*" then of_route
+              else match rt_hostnames r with
+                   | [] => [h]
+                   | hs => keep_some (map (spec_match h) hs)
+                   end
+  end.
+
+(* listener protocol against route kind *)
+Definition spec_protocol_admits (r : route) (l : listener) : Prop :=
+  if rt_tcp r then l_protocol l = "TCP" else (l_protocol l = "HTTP" \/ l_protocol l = "HTTPS").
+
+(* admitted by the Gateway API text: the project's relation, plus the listener protocol and the
+   hostname intersection *)
+Definition admitted_by_spec (cl : cluster) (a : attachment) : Prop :=
+  admitted cl a /\
+  spec_protocol_admits (at_route a) (at_listener a) /\
+  In (at_hostname a) (spec_hostnames (at_listener a) (at_route a)).
+
+(* the object set stays inside what the project implements of the API: every admitting listener
+   speaks a protocol fit for the route and its hostname override coincides with the intersection *)
+Definition within_documented_conformance (cl : cluster) : Prop :=
+  forall a, In a (combinations cl) -> admitted cl a ->
+    spec_protocol_admits (at_route a) (at_listener a) /\
+    filter_hostnames (at_listener a) (at_route a) = spec_hostnames (at_listener a) (at_route a).
+
+(* no listener in tls.mode Passthrough *)
+Definition no_passthrough (cl : cluster) : Prop :=
+  forall g l, In g (c_gateways cl) -> In l (g_listeners g) -> is_passthrough l = false.
